@@ -204,11 +204,21 @@ class OptOut(HttpProxyBasePlugin):
         return OUTCOME['do_intercept']
 
 
+class Bystander(HttpProxyBasePlugin):
+    """A second plugin with the default do_intercept (True), configured AFTER the one that may opt out."""
+
+
+class Bystander0(HttpProxyBasePlugin):
+    """... and one configured BEFORE it."""
+
+
 _TLS = ['--threadless', '--ca-key-file', '/ca/key.pem', '--ca-cert-file', '/ca/cert.pem', '--ca-signing-key-file', '/ca/signing.pem',
         '--ca-cert-dir', '/ca/cache', '--ca-file', '/ca/bundle.pem']
 FL = {
     False: FlagParser.initialize(_TLS, plugins=[OptOut]),
     True: FlagParser.initialize(_TLS + ['--insecure-tls-interception'], plugins=[OptOut]),
+    # the opting-out plugin between two plugins that leave do_intercept at its default: one "no" is enough, wherever it stands
+    'three': FlagParser.initialize(_TLS, plugins=[Bystander0, OptOut, Bystander]),
 }
 S_OUT = ['ok', 'verify', 'sslerror']
 C_OUT = ['ok', 'verify', 'sslerror', 'eof', 'pipe']
@@ -253,7 +263,7 @@ def intercept(h0: int, h1: int, so: int, co: int, cache: int, di: int, d0: int) 
     with concrete():
         env = envkit.new_env()
         env.upstream_factory = lambda addr: FakeTcpSocket(env.sock('upstream'))
-        h, cs = envkit.make_handler(FL[insecure], env)
+        h, cs = envkit.make_handler(FL['three'] if CFG.get('three') else FL[insecure], env)
     cs.inq.append(b'CONNECT ' + host + b':443 HTTP/1.1\r\n\r\n')
     try:
         td = run(h.handle_events([cs.fd], []))
@@ -410,6 +420,9 @@ def obligations(tier):
             for so in (0, 1):
                 obs.append({'name': 'intercept.%s.%s.server_%s' % (hkind, 'insecure' if insecure else 'verify', S_OUT[so]), 'fn': 'intercept',
                             'cfg': {'insecure': insecure, 'so': so, 'co': 0, 'di': 1, 'hostkind': hkind}, 'timeout': 400})
+    for di in (0, 1):
+        obs.append({'name': 'intercept.verify.three_plugins.%s' % ('intercept' if di else 'optout'), 'fn': 'intercept',
+                    'cfg': {'insecure': False, 'so': 0, 'co': 0, 'di': di, 'three': True}, 'timeout': 400})
     for insecure in (False, True):
         obs.append({'name': 'intercept.%s.want_read' % ('insecure' if insecure else 'verify'), 'fn': 'intercept',
                     'cfg': {'insecure': insecure, 'so': 0, 'co': 0, 'di': 1, 'want_read': True}, 'timeout': 400})
@@ -423,7 +436,7 @@ META = {
     'bounds': {
         'quick': 'CONNECT host: name with 2 symbolic letters, IPv4 and bracketed IPv6 literals with a symbolic digit; a failing openssl helper at each of the 3 generation steps (lock must be released); upstream handshake outcome {ok, certificate verification error, other SSL error}; '
                  'client-side handshake outcome {ok, verification error, SSL error, EOF, broken pipe}; --insecure-tls-interception on/off; a '
-                 'plugin\'s do_intercept on/off; certificate cache state symbolic (8 combinations of leaf/public key/CSR present); one symbolic '
+                 'plugin\'s do_intercept on/off (alone, and between two plugins with the default answer); certificate cache state symbolic (8 combinations of leaf/public key/CSR present); one symbolic '
                  'payload byte; SSLWantReadError (incomplete record) on both sides of an established intercepted session',
         'thorough': 'same',
     },
